@@ -42,6 +42,11 @@ var symPoolSrc = map[string]string{
 	"f12.proto":  `syntax = "proto2"; package n.m; import "base.proto"; message K { optional int32 k = 1; } extend a.Base { optional int32 e12 = 100; }`,
 	"f13.proto":  `syntax = "proto3"; message n { int32 k = 1; }`,
 	"f14.proto":  `syntax = "proto2"; package a; import "base.proto"; message V { optional int32 v = 1; } extend Base { optional int32 e14 = 150; optional int32 e14b = 101; }`,
+	// enum values live in the scope enclosing the enum: a.X, a.Y, c.W collide with messages, a.EV with another enum's value
+	"f15.proto": `syntax = "proto3"; package a; enum Kind { X = 0; EV = 1; }`,
+	"f16.proto": `syntax = "proto3"; package a; enum Other { Y = 0; }  message Holder { enum In { IN0 = 0; } }`,
+	"f17.proto": `syntax = "proto3"; package a; enum Third { EV = 0; }`,
+	"f18.proto": `syntax = "proto3"; package c; enum Cs { W = 0; }`,
 }
 
 type symFile struct {
